@@ -149,7 +149,8 @@ pub fn parse_cmd(line: &str) -> Option<Cmd> {
     let t: Vec<&str> = line.split_whitespace().collect();
     let a16 = |i: usize| -> Option<u16> { Some(hx(t.get(i)?)? as u16) };
     match *t.first()? {
-        "S" => {
+        "S" | "SN" => {
+            let fresh = t[0] == "SN";
             let mut s = St::default();
             parse_regctl(&t[1..], &mut s)?;
             let d = t.get(11)?.as_bytes();
@@ -173,7 +174,7 @@ pub fn parse_cmd(line: &str) -> Option<Cmd> {
                 let mut p = o.split(':');
                 s.ovr.push((hx(p.next()?)? as u16, hx(p.next()?)? as u8));
             }
-            Some(Cmd::S(Box::new(s)))
+            Some(if fresh { Cmd::SN(Box::new(s)) } else { Cmd::S(Box::new(s)) })
         }
         "P" => {
             let mut s = St::default();
@@ -200,6 +201,7 @@ pub fn parse_cmd(line: &str) -> Option<Cmd> {
         }
         "DA" => Some(Cmd::DA(a16(1)?)),
         "SD" => Some(Cmd::SD(hx(t.get(1)?)?)),
+        "NAP" => Some(Cmd::Nap(hx(t.get(1)?)?)),
         "SF" => Some(Cmd::SF(hx(t.get(1)?)?)),
         "SP16" => Some(Cmd::SetPair(hx(t.get(1)?)? as u8, a16(2)?)),
         _ => None,
